@@ -1,5 +1,5 @@
 (* C18 - Protocol identifier tables are exact: every listed name/number, nothing else. *)
-From Ctap Require Import Base Schema Wire Typed Procs Inst Tables ProcTables Finite FramingP C18P ObEnums ObByteTables.
+From Ctap Require Import Base Schema Wire Typed Procs Inst Tables ProcTables Finite FramingP C18P ObEnums ObByteTables Deps ObDeps.
 Local Open Scope string_scope.
 Local Open Scope Z_scope.
 
@@ -49,6 +49,10 @@ Proof. exact control_byte_table. Qed.
 Theorem c18_generated_byte_tables : forallb (fun f => byte_tables_equiv (gen_tables f)) all_feats = true.
 Proof. exact generated_byte_tables. Qed.
 
+(* the third-party crates the model represents by hand are pinned at the versions it was written against *)
+Theorem c18_modelled_dependencies_pinned : deps_hold lock_versions cargo_deps = true.
+Proof. exact generated_deps. Qed.
+
 Eval vm_compute in "ASSUMPTIONS c18_generated_enums_exact". Print Assumptions c18_generated_enums_exact.
 Eval vm_compute in "ASSUMPTIONS c18_spec_enums_exact". Print Assumptions c18_spec_enums_exact.
 Eval vm_compute in "ASSUMPTIONS c18_distinct". Print Assumptions c18_distinct.
@@ -60,3 +64,4 @@ Eval vm_compute in "ASSUMPTIONS c18_only_listed_numbers". Print Assumptions c18_
 Eval vm_compute in "ASSUMPTIONS c18_rejected_number_unlisted". Print Assumptions c18_rejected_number_unlisted.
 Eval vm_compute in "ASSUMPTIONS c18_control_bytes". Print Assumptions c18_control_bytes.
 Eval vm_compute in "ASSUMPTIONS c18_generated_byte_tables". Print Assumptions c18_generated_byte_tables.
+Eval vm_compute in "ASSUMPTIONS c18_modelled_dependencies_pinned". Print Assumptions c18_modelled_dependencies_pinned.
